@@ -167,6 +167,9 @@ func runOrderEngine(p *Program, r *Report, rule string, names []string) *orderRu
 		st := newOState()
 		args := seedOrderEntry(or.it, p, fn, st)
 		ret, out := or.it.analyze(fn, args, st, nil)
+		if ok := or.it.lastOK; ok != nil {
+			out = ok // output contracts are about what a successful call returns
+		}
 		or.entries = append(or.entries, fn)
 		or.rets[fn], or.outs[fn], or.seeds[fn] = ret, out, args
 	}
@@ -512,6 +515,45 @@ func checkOutputs(p *Program, r *Report, or *orderRun, rule string, specs map[st
 	return n
 }
 
+// checkOutputLayout: a position slice returned by an entry of the map forest
+// must be in the tree layout (the coordinate system of the API).
+func checkOutputLayout(p *Program, r *Report, or *orderRun, rule string, name string, result int, field string) {
+	var fn *ssa.Function
+	for _, f := range or.entries {
+		if p.FuncName(f) == name {
+			fn = f
+		}
+	}
+	if fn == nil {
+		return
+	}
+	key := name + "/layout-of-result"
+	v := or.rets[fn].fld(result)
+	if field != "" {
+		st, ok := fn.Signature.Results().At(result).Type().Underlying().(*types.Struct)
+		idx := -1
+		for i := 0; ok && i < st.NumFields(); i++ {
+			if st.Field(i).Name() == field {
+				idx = i
+			}
+		}
+		if idx < 0 {
+			r.Undecided(rule, key, p.Pos(fn.Pos()), "result field not found")
+			return
+		}
+		v = v.fld(idx)
+	}
+	c := or.outs[fn].crdOf(v)
+	switch {
+	case c == 0:
+		r.Undecided(rule, key, p.Pos(fn.Pos()), "the layout of the returned positions is unknown to the analysis")
+	case !c.compatible(crdTree):
+		r.Violate(rule, key, p.Pos(fn.Pos()), "the returned positions may be in the "+(c&^(crdTree|crdBoth)).String()+" layout; the API exchanges positions in the tree layout (TreeRows(NumLeaves))", "in "+name)
+	default:
+		r.Discharge(rule, key, p.Pos(fn.Pos()), "the returned positions are in the "+c.String()+" layout", true)
+	}
+}
+
 // alignedOutputs checks that two returned slices come out in the same class
 // (e.g. the cached hashes returned by (*Proof).Update and the targets left in
 // the receiver).
@@ -608,6 +650,7 @@ func runC14(p *Program, r *Report) {
 		},
 	})
 	checkCoverageGate(p, r)
+	checkOutputLayout(p, r, or, "R14e", "(*MapPollard).GetMissingPositions", 0, "")
 }
 
 // checkCoverageGate (R14c): in GetProofSubset every success return is
@@ -881,6 +924,7 @@ func runC02(p *Program, r *Report) {
 	}
 	n := checkOutputs(p, r, or, "R02a", specs)
 	r.Floor("R02a", "prover results", n, 4)
+	checkOutputLayout(p, r, or, "R02d", "(*MapPollard).Prove", 0, "Targets")
 	checkNoSilentHole(p, r)
 }
 
